@@ -37,6 +37,8 @@ def gen_case(ctx, g):
     else:
         kind = ('select', g.items(cx))
     qa = {'kind': kind, 'where': g.bool_expr(cx) if r.random() < 0.55 else None, 'join': join}
+    if kind[0] == 'except':
+        qa['distinct'] = r.choice([0, 0, 0, 1, 2])      # the writers on top of EXCEPT must receive a fresh list
     return ec.make_case(r, qa, A, B, also_table=True)
 
 
